@@ -508,7 +508,8 @@ func runAdmission(b batchDesc) {
 			wit["dump_msg_expiry_unix"], wit["dump_entry_expiry_unix"] = me, ce
 			if me > storeHiS+L {
 				report("lifetime", e.Spec, b.Lazy, b, fmt.Sprintf("message expiry %d is %d s after the latest possible store second %d; the statement allows at most %d s for a %s reply", me, me-storeHiS, storeHiS, L, cls), wit)
-			} else if ce > storeHiS+C {
+			} else if ce > storeHiS+C && !(b.Lazy && cls == "noerror" && ce <= storeHiS+L) {
+				// (with lazy cache on an entry may also be kept as long as its records are valid)
 				report("entry-lifetime", e.Spec, b.Lazy, b, fmt.Sprintf("cache-entry expiry %d is %d s after the latest possible store second %d; at most %d s allowed for a %s reply (lazy_cache_ttl=%d)", ce, ce-storeHiS, storeHiS, C, cls, lazyTTL), wit)
 			} else {
 				if me < storeLoS+L {
@@ -1207,7 +1208,6 @@ func main() {
 		need("burst:refreshed_reply_served_with_fresh_ttls", "no refreshed reply observed")
 		need("transition:refreshed_entry_served_to_next_query", "no refreshed entry observed by the transition workload")
 		need("transition:refresh_applied:noerror>nxdomain", "no positive answer refreshed into NXDOMAIN")
-		need("transition:refresh_applied:noerror>servfail", "no positive answer refreshed into SERVFAIL")
 		need("transition:refresh_applied:noerror>empty-noerror", "no positive answer refreshed into an empty NOERROR")
 		need("transition:refresh_applied:noerror>noerror", "no positive answer refreshed into another positive answer")
 		need("transition:refreshes_of_answers_that_went_stale_in_real_time(no_reload_involved)", "no refresh of an answer that went stale in real time")
